@@ -22,13 +22,13 @@ int fft_cache_capacity();
 using namespace vf;
 using namespace dsplib;
 
-enum Kind { FFT_C, FFT_R, IFFT, IRFFT, HOLD_C, HOLD_R, HOLD_I, USE, BAD_C };
+enum Kind { FFT_C, FFT_R, IFFT, IRFFT, HOLD_C, HOLD_R, HOLD_I, USE, BAD_C, HOLD_IR, HOLD_Z };
 struct Req {
     Kind kind;
     int n;   // length; for USE: index of the held plan (mod number held)
 };
 static std::string rname(const Req& r) {
-    static const char* k[] = {"fft", "rfft", "ifft", "irfft", "holdC", "holdR", "holdI", "use", "fftplan-wrong-length"};
+    static const char* k[] = {"fft", "rfft", "ifft", "irfft", "holdC", "holdR", "holdI", "use", "fftplan-wrong-length", "holdIR", "holdCzt"};
     return std::string(k[r.kind]) + std::to_string(r.n);
 }
 
@@ -60,6 +60,8 @@ struct Held {
     std::shared_ptr<FftPlan> c;
     std::shared_ptr<FftPlanR> r;
     std::shared_ptr<IfftPlan> i;
+    std::shared_ptr<IfftPlanR> ir;
+    std::shared_ptr<CztPlan> z;
 };
 
 static Out exec_raw(const Req& q, std::vector<Held>& held);
@@ -85,23 +87,35 @@ static Out exec_raw(const Req& q, std::vector<Held>& held) {
     case IFFT: return flat(ifft(cin(q.n, 13)));
     case IRFFT: return flat(irfft(cin(q.n / 2 + 1, 14), q.n));
     case HOLD_C: {
-        Held h{HOLD_C, q.n, std::make_shared<FftPlan>(q.n), nullptr, nullptr};
+        Held h{HOLD_C, q.n, std::make_shared<FftPlan>(q.n), nullptr, nullptr, nullptr, nullptr};
         held.push_back(h);
         return flat(h.c->solve(cin(q.n, 15)));
     }
     case HOLD_R: {
-        Held h{HOLD_R, q.n, nullptr, std::make_shared<FftPlanR>(q.n), nullptr};
+        Held h{HOLD_R, q.n, nullptr, std::make_shared<FftPlanR>(q.n), nullptr, nullptr, nullptr};
         held.push_back(h);
         return flat(h.r->solve(rin(q.n, 16)));
     }
     case HOLD_I: {
-        Held h{HOLD_I, q.n, nullptr, nullptr, std::make_shared<IfftPlan>(q.n)};
+        Held h{HOLD_I, q.n, nullptr, nullptr, std::make_shared<IfftPlan>(q.n), nullptr, nullptr};
         held.push_back(h);
         return flat(h.i->solve(cin(q.n, 17)));
+    }
+    case HOLD_IR: {
+        Held h{HOLD_IR, q.n, nullptr, nullptr, nullptr, std::make_shared<IfftPlanR>(q.n), nullptr};
+        held.push_back(h);
+        return flat(h.ir->solve(cin(q.n / 2 + 1, 19)));
+    }
+    case HOLD_Z: {
+        Held h{HOLD_Z, q.n, nullptr, nullptr, nullptr, nullptr, std::make_shared<CztPlan>(q.n, q.n + 2, expj(-2 * pi / (q.n + 2)), cmplx_t(0.9, 0.2))};
+        held.push_back(h);
+        return flat(h.z->solve(cin(q.n, 20)));
     }
     case USE: {
         if (held.empty()) return Out();
         Held& h = held[(size_t)q.n % held.size()];
+        if (h.kind == HOLD_IR) return flat(h.ir->solve(cin(h.n / 2 + 1, 19)));
+        if (h.kind == HOLD_Z) return flat(h.z->solve(cin(h.n, 20)));
         if (h.kind == HOLD_C) return flat(h.c->solve(cin(h.n, 15)));
         if (h.kind == HOLD_R) return flat(h.r->solve(rin(h.n, 16)));
         return flat(h.i->solve(cin(h.n, 17)));
@@ -160,7 +174,8 @@ static int primary_key(const Req& q, bool real_cache) {
     case HOLD_C:
     case BAD_C:
     case HOLD_I: return real_cache ? 0 : q.n;
-    case IRFFT: return real_cache ? 0 : q.n / 2;
+    case IRFFT:
+    case HOLD_IR: return real_cache ? 0 : q.n / 2;
     case FFT_R:
     case HOLD_R: return real_cache ? q.n : 0;
     default: return 0;
@@ -248,6 +263,7 @@ int main(int argc, char** argv) {
         {"B", {{FFT_R, 16}, {FFT_R, 12}, {FFT_R, 7}, {FFT_R, 60}, {FFT_R, 53}, {FFT_R, 30}}},
         {"C", {{FFT_C, 12}, {FFT_R, 12}, {IFFT, 10}, {IRFFT, 12}, {FFT_C, 53}, {FFT_R, 15}}},
         {"E", {{IRFFT, 12}, {IRFFT, 13}, {IRFFT, 14}, {BAD_C, 12}, {FFT_C, 12}, {FFT_R, 14}}},
+        {"F", {{HOLD_IR, 12}, {HOLD_IR, 20}, {IRFFT, 14}, {IRFFT, 12}, {HOLD_Z, 5}, {HOLD_Z, 9}, {FFT_C, 16}, {USE, 0}, {USE, 1}, {USE, 2}}},
         {"D", {{FFT_C, 12}, {FFT_C, 60}, {FFT_C, 53}, {FFT_R, 30}, {HOLD_C, 60}, {HOLD_R, 30}, {HOLD_I, 12}, {HOLD_C, 53}, {USE, 0}, {USE, 1}}},
     };
 
